@@ -14,6 +14,7 @@ use common_lang_types::CurrentWorkingDirectory;
 use graphql_network_protocol::GraphQLAndJavascriptProfile;
 use intern::string_key::Intern;
 use isograph_compiler::CompilerState;
+use tsread::raw::{CompileError, RawProject};
 use tsread::c13::{C13Options, check_c13_all};
 use tsread::c24::{self, IsoKind, IsoLiteral};
 use tsread::{ArtifactSet, Val};
@@ -36,6 +37,9 @@ fn main() {
     match mode {
         "checked-in" => bad += checked_in(),
         "hostile" => bad += hostile(),
+        "regen" => bad += regen(),
+        "write-replays" => write_replays(),
+        "replays" => bad += run_replays(),
         "all" => {
             bad += checked_in();
             bad += hostile();
@@ -270,40 +274,20 @@ fn scratch() -> PathBuf {
     p
 }
 
-fn compile_mini(root: &Path, m: &Mini) -> Result<(ArtifactSet, PathBuf), String> {
-    let dir = root.join(m.name);
-    let _ = std::fs::remove_dir_all(&dir);
-    std::fs::create_dir_all(dir.join("src")).unwrap();
-    std::fs::write(dir.join("schema.graphql"), &m.schema).unwrap();
-    for (p, c) in &m.sources {
-        let path = dir.join("src").join(p);
-        std::fs::create_dir_all(path.parent().unwrap()).unwrap();
-        std::fs::write(path, c).unwrap();
+fn raw_of(m: &Mini) -> RawProject {
+    RawProject {
+        schema: m.schema.clone(),
+        sources: m.sources.iter().cloned().collect(),
+        options: m.options.clone(),
+        ..Default::default()
     }
-    let config = serde_json::json!({
-        "project_root": "./src",
-        "schema": "./schema.graphql",
-        "options": m.options,
-    });
-    let config_path = dir.join("isograph.config.json");
-    std::fs::write(&config_path, serde_json::to_string_pretty(&config).unwrap()).unwrap();
-    let cwd: CurrentWorkingDirectory = dir.to_str().unwrap().intern().into();
-    let result = vcore::catch_panic(|| {
-        let config = isograph_config::create_config(&config_path, cwd);
-        let state = CompilerState::<GraphQLAndJavascriptProfile>::new(config, cwd).map_err(|e| format!("{e}"))?;
-        let (artifacts, _stats) = artifact_content::get_artifact_path_and_content(&state.db).map_err(|diags| {
-            diags
-                .iter()
-                .map(|d| d.printable(state.db.print_location_fn(false)).to_string())
-                .collect::<Vec<_>>()
-                .join("\n")
-        })?;
-        Ok::<_, String>(ArtifactSet::from_artifacts(&artifacts))
-    });
-    match result {
-        Ok(Ok(set)) => Ok((set, dir.join("src"))),
-        Ok(Err(e)) => Err(format!("diagnostics: {e}")),
-        Err(p) => Err(format!("panic: {p}")),
+}
+
+fn compile_mini(root: &Path, m: &Mini) -> Result<(ArtifactSet, PathBuf), String> {
+    match tsread::raw::compile(&raw_of(m), root) {
+        Ok(c) => Ok((c.set, c.project_root)),
+        Err(CompileError::Rejected(d)) => Err(format!("diagnostics: {d}")),
+        Err(CompileError::Panic(p)) => Err(format!("panic: {p}")),
     }
 }
 
@@ -337,10 +321,10 @@ fn basic_sources(arg: &str) -> Vec<(&'static str, String)> {
             "a.ts",
             format!(
                 "import {{ iso }} from './__isograph/iso';\n\
-                 export const Foo = iso(`\n  field User.Foo {{\n    name\n    friend(nick: {arg}) {{ name }}\n  }}\n`)(() => 1);\n\
+                 export const Foo = iso(`\n  field User.Foo {{\n    name\n    friend(nick: {arg}) {{\n      name\n    }}\n  }}\n`)(() => 1);\n\
                  export const FooBar = iso(`\n  field User.FooBar @component {{\n    name\n  }}\n`)(() => 1);\n\
-                 export const Home = iso(`\n  field Query.Home {{\n    me {{ Foo FooBar }}\n  }}\n`)(() => 1);\n\
-                 export const Ho = iso(`field Query.Ho {{ me {{ name }} }}`)(() => 1);\n"
+                 export const Home = iso(`\n  field Query.Home {{\n    me {{\n      Foo\n      FooBar\n    }}\n  }}\n`)(() => 1);\n\
+                 export const Ho = iso(`field Query.Ho {{ me {{ name, }}, }}`)(() => 1);\n"
             ),
         ),
         ("b.ts", "import { iso } from './__isograph/iso';\niso(`\n  entrypoint Query.Home\n`);\niso(`entrypoint Query.Ho`);\n".to_string()),
@@ -355,7 +339,16 @@ fn hostile() -> usize {
     let root = scratch();
     let mut bad = 0;
     // (mini, expected C13 signatures, expected C24 signatures)
-    let cases: Vec<(Mini, Vec<&str>, Vec<&str>)> = vec![
+    let cases = first_cases();
+    let mut cases = cases;
+    cases.extend(more_cases());
+    run_cases(&root, cases, &mut bad);
+    let _ = std::fs::remove_dir_all(&root);
+    bad
+}
+
+fn first_cases() -> Vec<(Mini, Vec<&'static str>, Vec<&'static str>)> {
+    vec![
         (mini("plain", "\"plain\"", basic_sources("\"x\""), serde_json::json!({})), vec![], vec![]),
         (
             mini("ext", "\"plain\"", basic_sources("\"x\""), serde_json::json!({"include_file_extensions_in_import_statements": true})),
@@ -373,9 +366,9 @@ fn hostile() -> usize {
             vec![],
         ),
         (mini("arg-apostrophe", "\"plain\"", basic_sources("\"O'Brien\""), serde_json::json!({})), vec![], vec![]),
-        (mini("arg-escaped-quote", "\"plain\"", basic_sources("\"a\\\\\"b\""), serde_json::json!({})), vec![], vec![]),
-        (mini("arg-backslash", "\"plain\"", basic_sources("\"a\\\\\\\\b\""), serde_json::json!({})), vec![], vec![]),
-        (mini("arg-newline-escape", "\"plain\"", basic_sources("\"a\\\\nb\""), serde_json::json!({})), vec![], vec![]),
+        (mini("arg-escaped-quote", "\"plain\"", basic_sources("\"a\\\"b\""), serde_json::json!({})), vec![], vec![]),
+        (mini("arg-backslash", "\"plain\"", basic_sources("\"a\\\\b\""), serde_json::json!({})), vec![], vec![]),
+        (mini("arg-newline-escape", "\"plain\"", basic_sources("\"a\\nb\""), serde_json::json!({})), vec![], vec![]),
         (
             mini("header", "\"plain\"", basic_sources("\"x\""), serde_json::json!({"generated_file_header": "generated, do not edit"})),
             vec![],
@@ -411,9 +404,16 @@ fn hostile() -> usize {
             vec![],
             vec![],
         ),
-    ];
+    ]
+}
+
+fn run_cases(root: &Path, cases: Vec<(Mini, Vec<&'static str>, Vec<&'static str>)>, bad_out: &mut usize) {
+    let mut bad = 0;
     for (m, want13, want24) in cases {
-        match compile_mini(&root, &m) {
+        match compile_mini(root, &m) {
+            Err(e) if ["header-ls", "header-cr"].contains(&m.name) && e.contains("generated_file_header") => {
+                println!("{}: rejected by the configuration reader, as it must be: {}", m.name, e.lines().next().unwrap_or(""));
+            }
             Err(e) => {
                 println!("{}: did not compile: {}", m.name, e.lines().take(12).collect::<Vec<_>>().join("\n    "));
                 bad += 1;
@@ -445,6 +445,33 @@ fn hostile() -> usize {
                     bad += 1;
                 }
                 let lits = literals_of(&m);
+                // the fixes must also be right, not only quiet: query texts are GraphQL after
+                // cooking, and the no_babel case labels evaluate to the literal texts
+                if got13.is_empty() {
+                    for p in set.query_text_paths() {
+                        let text = set.query_text(p).unwrap_or("");
+                        if let Err(e) = graphql_syntax::parse_executable(text, common::SourceLocationKey::generated()) {
+                            println!("    cooked query text of {p} rejected by relay's parser: {e:?}\n      {text}");
+                            bad += 1;
+                        }
+                    }
+                    if m.name == "no-babel" {
+                        let iso = &set.files["iso.ts"].source;
+                        let labels: Vec<String> = iso
+                            .lines()
+                            .filter_map(|l| l.strip_prefix("    case ").and_then(|r| r.strip_suffix(':')))
+                            .map(|lit| tsread::jsstr::cook_string_literal(lit).expect("case label").to_string_lossy())
+                            .collect();
+                        for l in lits.iter().filter(|l| l.kind == IsoKind::Entrypoint) {
+                            let runtime_value = tsread::jsstr::cook_template_raw(&l.literal_text).unwrap().to_string_lossy();
+                            if !labels.contains(&runtime_value) {
+                                println!("    no case label of iso.ts evaluates to the literal {:?}: {labels:?}", l.literal_text);
+                                bad += 1;
+                            }
+                        }
+                        println!("    no_babel case labels: {labels:?}");
+                    }
+                }
                 match c24::check_c24_all(&set, &lits) {
                     Ok((st, fails)) => {
                         let mut got: Vec<String> = fails.iter().map(|f| f.signature.clone()).collect();
@@ -473,7 +500,280 @@ fn hostile() -> usize {
             }
         }
     }
-    let _ = std::fs::remove_dir_all(&root);
-    let _ = IsoKind::Field;
+    *bad_out += bad;
+}
+
+fn src(files: Vec<(&'static str, &str)>) -> Vec<(&'static str, String)> {
+    files.into_iter().map(|(p, c)| (p, c.to_string())).collect()
+}
+
+fn more_cases() -> Vec<(Mini, Vec<&'static str>, Vec<&'static str>)> {
+    let loadable = r#"import { iso } from './__isograph/iso';
+export const Foo = iso(`
+  field User.Foo($x: String = "d") @component {
+    name
+    friend(nick: $x) {
+      name
+    }
+  }
+`)(() => 1);
+export const Bar = iso(`
+  field User.Bar {
+    name
+  }
+`)(() => 1);
+export const Home = iso(`
+  field Query.Home {
+    me {
+      Foo @loadable(lazyLoadArtifact: true)
+      Bar @loadable
+      __refetch
+    }
+  }
+`)(() => 1);
+iso(`entrypoint Query.Home @lazyLoad`);
+"#;
+    let pointer = r#"import { iso } from './__isograph/iso';
+export const best = iso(`
+  pointer User.best to User {
+    friend {
+      __link
+    }
+  }
+`)(({ data }) => data.friend?.__link);
+export const Home = iso(`
+  field Query.Home {
+    me {
+      name @updatable
+      best {
+        name
+      }
+    }
+  }
+`)(() => 1);
+iso(`entrypoint Query.Home`);
+"#;
+    let default_apostrophe = r#"import { iso } from './__isograph/iso';
+export const Home = iso(`
+  field Query.Home($q: String = "it's") {
+    search(text: $q) {
+      name
+    }
+  }
+`)(() => 1);
+iso(`entrypoint Query.Home`);
+"#;
+    let layouts = "import { iso } from './__isograph/iso';\n\
+export const A = iso(`field  User.A { name, }`)(() => 1);\n\
+export const B = iso(`field\tUser.B { name, }`)(() => 1);\n\
+export const C = iso(`field User . C { name, }`)(() => 1);\n\
+export const D = iso(`field\nUser.D { name, }`)(() => 1);\n\
+export const E = iso(`\r\n  field User.E { name, }`)(() => 1);\n\
+export const F = iso(`\u{c}field User.F { name, }`)(() => 1);\n\
+export const G = iso(`field User.G@component{ name, }`)(() => 1);\n\
+export const GG = iso(`\t \n field User.GG { name, }`)(() => 1);\n\
+export const H = iso(`field Query.H { me { A, B, C, D, E, F, G, GG, }, }`)(() => 1);\n\
+iso(`entrypoint  Query.H`);\n";
+    vec![
+        (
+            Mini { name: "loadable", schema: BASE_SCHEMA.into(), sources: own(src(vec![("a.tsx", loadable)])), options: serde_json::json!({}) },
+            vec![],
+            vec![],
+        ),
+        (
+            Mini {
+                name: "loadable-ext",
+                schema: BASE_SCHEMA.into(),
+                sources: own(src(vec![("a.tsx", loadable)])),
+                options: serde_json::json!({"include_file_extensions_in_import_statements": true}),
+            },
+            vec![],
+            vec![],
+        ),
+        (
+            Mini { name: "pointer-updatable", schema: BASE_SCHEMA.into(), sources: own(src(vec![("a.ts", pointer)])), options: serde_json::json!({}) },
+            vec![],
+            vec![],
+        ),
+        (
+            Mini { name: "default-apostrophe", schema: BASE_SCHEMA.into(), sources: own(src(vec![("a.ts", default_apostrophe)])), options: serde_json::json!({}) },
+            vec![],
+            vec![],
+        ),
+        (
+            Mini { name: "file-apostrophe", schema: BASE_SCHEMA.into(), sources: own(src(vec![("it's.ts", pointer)])), options: serde_json::json!({}) },
+            vec![],
+            vec![],
+        ),
+        (
+            Mini { name: "header-cr", schema: BASE_SCHEMA.into(), sources: own(src(vec![("a.ts", pointer)])), options: serde_json::json!({"generated_file_header": "a\rb c"}) },
+            vec![],
+            vec![],
+        ),
+        (
+            Mini {
+                name: "persisted-txt",
+                schema: BASE_SCHEMA.into(),
+                sources: own(src(vec![("a.ts", pointer)])),
+                options: serde_json::json!({"generated_file_header": "hdr", "persisted_documents": {"file": "docs.txt"}}),
+            },
+            vec![],
+            vec![],
+        ),
+        (
+            Mini { name: "layouts", schema: BASE_SCHEMA.into(), sources: own(src(vec![("a.ts", layouts)])), options: serde_json::json!({}) },
+            vec![],
+            // open findings: the compiler accepts these headers, the generated overloads do not
+            vec!["no-overload:header-layout", "no-overload:leading-whitespace"],
+        ),
+    ]
+}
+
+fn own(v: Vec<(&'static str, String)>) -> Vec<(String, String)> {
+    v.into_iter().map(|(p, c)| (p.to_string(), c)).collect()
+}
+
+/// Compile the four checked-in projects in memory with the working tree's compiler and compare
+/// with the checked-in artifact directories (nothing is written).
+fn regen() -> usize {
+    let mut bad = 0;
+    for (proj, root) in PROJECTS {
+        let dir = repo().join(proj);
+        let config_path = dir.join("isograph.config.json");
+        let cwd: CurrentWorkingDirectory = dir.to_str().unwrap().intern().into();
+        let result = vcore::catch_panic(|| {
+            let config = isograph_config::create_config(&config_path, cwd);
+            let state = CompilerState::<GraphQLAndJavascriptProfile>::new(config, cwd).map_err(|e| format!("{e}"))?;
+            let (artifacts, _) = artifact_content::get_artifact_path_and_content(&state.db)
+                .map_err(|d| format!("{} diagnostics", d.len()))?;
+            Ok::<_, String>(tsread::artifacts_to_files(&artifacts))
+        });
+        let files = match result {
+            Ok(Ok(f)) => f,
+            other => {
+                println!("{proj}: did not compile: {:?}", other.map(|r| r.map(|_| ())));
+                bad += 1;
+                continue;
+            }
+        };
+        let on_disk = dir.join(root).join("__isograph");
+        let mut differing = 0;
+        for (path, content) in &files {
+            match std::fs::read_to_string(on_disk.join(path)) {
+                Ok(c) if &c == content => {}
+                Ok(_) => {
+                    differing += 1;
+                    println!("  {proj}: {path} differs from the checked-in file");
+                }
+                Err(_) => {
+                    differing += 1;
+                    println!("  {proj}: {path} is not checked in");
+                }
+            }
+        }
+        let set = ArtifactSet::from_dir(&on_disk).unwrap();
+        let generated: std::collections::BTreeSet<&String> = files.iter().map(|(p, _)| p).collect();
+        for p in set.files.keys().chain(set.json.keys()) {
+            if !generated.contains(p) {
+                differing += 1;
+                println!("  {proj}: checked-in {p} is not generated any more");
+            }
+        }
+        println!("{proj}: {} artifacts generated in memory, {} differences to the checked-in directory", files.len(), differing);
+        bad += differing;
+    }
+    bad
+}
+
+/// Dump the hostile mini projects as checked-in replay inputs (`raw-project` format):
+/// `replays/C13/regress-*.json` for the repaired defects, `replays/C24/known-*.json` and
+/// `replays/C24/regress-*.json` for the header layouts.
+fn write_replays() {
+    let root = vcore::verif_root().join("replays");
+    let write = |prop: &str, file: &str, signature: &str, expected: &str, input: serde_json::Value| {
+        let dir = root.join(prop);
+        std::fs::create_dir_all(&dir).unwrap();
+        let doc = serde_json::json!({
+            "property": prop, "seed": 0, "tier": "quick", "kind": "raw-project",
+            "signature": signature, "expected": expected, "input": input,
+        });
+        std::fs::write(dir.join(file), serde_json::to_string_pretty(&doc).unwrap() + "\n").unwrap();
+        println!("wrote {}/{}", prop, file);
+    };
+    let mut all = vec![];
+    all.extend(first_cases());
+    all.extend(more_cases());
+    let c13: [(&str, &str, &str); 8] = [
+        ("desc-comment-end", "ts-syntax:comment-terminator-in-description", "regress-description-comment-terminator.json"),
+        ("arg-apostrophe", "ts-syntax:unescaped-quote-in-query-text", "regress-apostrophe-in-string-argument.json"),
+        ("default-apostrophe", "ts-syntax:unescaped-quote-in-query-text", "regress-apostrophe-in-default-value.json"),
+        ("header-persisted", "json-syntax:generated-file-header", "regress-header-on-json.json"),
+        ("no-babel", "ts-syntax:iso.ts", "regress-no-babel-multiline-entrypoint.json"),
+        ("loadable-ext", "import-missing-extension:resolver_reader.ts", "regress-lazy-entrypoint-import-extension.json"),
+        ("file-apostrophe", "ts-syntax:resolver_reader.ts", "regress-apostrophe-in-source-path.json"),
+        ("arg-escaped-quote", "", "regress-escaped-quote-in-string-argument.json"),
+    ];
+    for (m, _, _) in &all {
+        if let Some((_, sig, file)) = c13.iter().find(|(n, _, _)| *n == m.name) {
+            write("C13", file, sig, "held (violated before the fix: commit in known_findings.json)", raw_of(m).to_json());
+        }
+    }
+    // C24: one literal per layout class
+    let schema = BASE_SCHEMA.to_string();
+    let one = |decl: &str, extra: &str| -> serde_json::Value {
+        let mut p = RawProject { schema: schema.clone(), options: serde_json::json!({}), ..Default::default() };
+        p.sources.insert(
+            "a.ts".into(),
+            format!("import {{ iso }} from './__isograph/iso';\nexport const A = iso(`{decl} {{ name, }}`)(() => 1);\n{extra}"),
+        );
+        p.to_json()
+    };
+    write("C24", "known-header-double-space.json", "no-overload:header-layout", "violated (open finding)", one("field  User.A", ""));
+    write("C24", "known-header-space-around-dot.json", "no-overload:header-layout", "violated (open finding)", one("field User . A", ""));
+    write("C24", "known-leading-form-feed.json", "no-overload:leading-whitespace", "violated (open finding)", one("\u{c}field User.A", ""));
+    write("C24", "regress-crlf-and-glued-directive.json", "", "held", one("\r\n \t field User.A@component", ""));
+    write(
+        "C24",
+        "regress-prefix-names.json",
+        "",
+        "held",
+        one(
+            "field User.Foo",
+            "export const B = iso(`field User.FooBar { name, }`)(() => 1);\nexport const C = iso(`field User.Fo { name, }`)(() => 1);\n\
+             export const D = iso(`field Query.Foo { me { Foo, FooBar, Fo, }, }`)(() => 1);\niso(`entrypoint Query.Foo`);\n",
+        ),
+    );
+}
+
+/// Run every checked-in `raw-project` replay of C13 and C24 through `raw::replay_*`:
+/// `regress-*` must hold, `known-*` must fail with the signature recorded in the file.
+fn run_replays() -> usize {
+    let mut bad = 0;
+    for prop in ["C13", "C24"] {
+        for (name, doc) in vcore::regression_inputs(prop) {
+            if doc["input"]["kind"] != "raw-project" {
+                continue;
+            }
+            let r = if prop == "C13" { tsread::raw::replay_c13(&doc["input"]) } else { tsread::raw::replay_c24(&doc["input"]) };
+            let want = doc["signature"].as_str().unwrap_or("");
+            let ok = match (&r, name.starts_with("known-")) {
+                (Ok(()), false) => true,
+                (Err(f), true) => f.signature == want,
+                _ => false,
+            };
+            println!(
+                "{prop}/{name}: {} {}",
+                match &r { Ok(()) => "held".to_string(), Err(f) => format!("FAILED {}", f.signature) },
+                if ok { "(as expected)" } else { "UNEXPECTED" }
+            );
+            if !ok {
+                if let Err(f) = &r {
+                    println!("{}", f.message);
+                }
+                bad += 1;
+            }
+        }
+    }
+    vcore::remove_scratch();
     bad
 }
